@@ -32,4 +32,19 @@ CHECKS = {
         technique='Hypothesis-generated arrival patterns under a virtual clock; sliding-window invariant + closed-form work-conserving reference schedule (multiset comparison)',
         text='40k arrival patterns per quick run (counts 1-5, four window lengths, bursts/ties on an exactly representable grid); admits are checked against the window bound and a reference T_k = max(a_k, T_{k-count}+W).',
         note='time.time and loop time are one virtual clock; trusts vlib/aiosched.py and the closed-form reference.'),
+    'C20': dict(
+        level='exploration',
+        technique='Hypothesis-generated completion/failure/cancellation plans over gate-driven tasks on a harness-owned asyncio loop; invariant + outcome oracle; tracking semaphore attributes the known over-release',
+        text='~19k plans per quick run over flat, nested (Copier-shaped) and online gathers with the caller holding a slot; checks the running-at-once bound (also on a second gather on the same semaphore), result order, exception contract, cancel-and-wait and task leaks at the instant control returns.',
+        note='Single-threaded asyncio; trusts vlib/aiosched.py. One known finding (semaphore over-release on error exit) is compensated per case and counted; two defects found were fixed.'),
+    'C21': dict(
+        level='exploration',
+        technique='Hypothesis sequences from a labelled exception catalogue (with raise-from chains) under a virtual clock and harness-chosen jitter; exhaustive grid for delay_ms_for_try',
+        text='Invocation counts, outcomes and every sleep are compared with the statement for the async, debug-string, delayed-warning and sync variants; delay_ms_for_try is enumerated for tries 0..100 x extreme jitter x six base/max pairs.',
+        note='Catalogue labels come from the documentation comments in utils.py (not from calling is_transient_error); random.randrange/time.sleep replaced in the module namespace.'),
+    'C26': dict(
+        level='exploration',
+        technique='Hypothesis op lists (lookup / load_ok / load_fail / cancel / advance) on a harness-owned loop with a virtual monotonic clock; invariant oracle with per-lookup load attribution',
+        text='32k histories per quick run with 1-3 slots, 4 keys and clock steps at L-1, L, L+1; checks capacity, freshness, single-flight and that a lookup fails only for its own load failure or its own cancellation.',
+        note='prometheus timing wrapper replaced by a pass-through; trusts vlib/aiosched.py. Found and fixed: cancelling one caller failed its co-waiters.'),
 }
